@@ -81,7 +81,8 @@ PHARMPY_KNOWN = {
 # specs
 
 XFLAGS = ['theta_inf', 'scaled_blocks', 'abbr_replace', 'abbr_opt', 'table', 'table_unsorted', 'cov', 'sizes', 'title_comment']
-X = st.fixed_dictionaries({f: st.booleans() for f in XFLAGS})
+# extra records / shapes of the generated text; each is on in half of the cases, `$ABBR REPLACE` in a quarter
+X = st.fixed_dictionaries({f: (st.sampled_from([False, False, False, True]) if f == 'abbr_replace' else st.booleans()) for f in XFLAGS})
 MODEL_SPEC = st.one_of(c01.PRED_SPEC, c01.ADVAN_SPEC)
 STREAM_SPEC = st.fixed_dictionaries(dict(m=MODEL_SPEC, x=X, ops=N.OPS))
 # kind of edit (see apply_edit): drawn uniformly, the edits of code records (12-15) twice as often
@@ -409,9 +410,11 @@ def record_list(text):
     return [('LEAD' if r.kind is None else r.kind, r.text) for r in S.split_exact(text)]
 
 
-def changed_kinds(before, after):
-    """-> (label, records only in before, records only in after); label is 'changed:<kinds>' or, when both
-    texts hold the same records in another order, 'records-reordered:<kinds that moved>'"""
+def changed_kinds(before, after, ignore=()):
+    """-> (signature, records only in before, records only in after).  signature is `<kind>:<what>` for the first
+    (alphabetically) record kind that differs, what in {changed, record-deleted, record-added}; when both texts
+    hold the same records in another order it is `records-reordered:<first kind that moved>`.  Kinds in `ignore`
+    are left out; '' means no difference."""
     rb, ra = record_list(before), record_list(after)
     common = _lcs(rb, ra)
     cb = list(rb)
@@ -419,12 +422,26 @@ def changed_kinds(before, after):
     for item in common:
         cb.remove(item)
         ca.remove(item)
-    kinds = []
-    for k, _ in cb + ca:
-        if k not in kinds:
-            kinds.append(k)
-    what = 'records-reordered' if sorted(rb) == sorted(ra) else 'changed'
-    return f'{what}:{"+".join(sorted(kinds))}', cb, ca
+    cb = [x for x in cb if x[0] not in ignore]
+    ca = [x for x in ca if x[0] not in ignore]
+    if not cb and not ca:
+        return '', cb, ca
+    # records present on both sides have only moved; the others were rewritten, deleted or added
+    rest = list(ca)
+    only_b = []
+    for x in cb:
+        if x in rest:
+            rest.remove(x)
+        else:
+            only_b.append(x)
+    only_a = rest
+    kinds = sorted({k for k, _ in only_b + only_a})
+    if not kinds:
+        return f'records-reordered:{sorted({k for k, _ in cb})[0]}', cb, ca
+    k = kinds[0]
+    nb, na = sum(1 for x in only_b if x[0] == k), sum(1 for x in only_a if x[0] == k)
+    what = 'changed' if nb == na else ('record-deleted' if nb > na else 'record-added')
+    return f'{k}:{what}', cb, ca
 
 
 def _lcs(a, b):
@@ -471,7 +488,7 @@ def frame_condition(before, after, may_change, label):
                 what = 'unrelated-record-added-or-moved'
                 kind = y[0] if y is not None else kind
             raise Violation(
-                f'{label}:{what}:{kind}',
+                f'{label}:{kind}:{what}',
                 observed=y[1] if y else None,
                 expected=x[1] if x else None,
                 detail=f'records allowed to change: {sorted(may_change)}\n--- before\n{before}\n--- after\n{after}',
@@ -488,97 +505,36 @@ def do_update(model, clause):
 
 
 def check_noop(text, model, n_etas):
+    """clauses: noop:<stage>:<kind>:<what> -- see changed_kinds; all differing kinds are listed in the detail"""
+
+    def compare(code, stage, ignore=()):
+        sig, cb, ca = changed_kinds(text, code, ignore)
+        if sig:
+            kinds = sorted({k for k, _ in cb + ca})
+            raise Violation(
+                f'noop:{stage}:{sig}' if stage else f'noop:{sig}',
+                observed=''.join(t for _, t in ca),
+                expected=''.join(t for _, t in cb),
+                detail=f'regenerating the code of the unmodified model: {sig}; differing record kinds {kinds}\n--- input\n{text}\n--- output\n{code}',
+            )
+
     if model.code != text:
-        what, _, _ = changed_kinds(text, model.code)
-        raise Violation(f'noop:code-after-read:{what}', observed=model.code, expected=text)
+        compare(model.code, 'code-after-read')
+        raise Violation('noop:code-after-read:text-between-records', observed=model.code, expected=text)
     u = do_update(model, 'noop:update_source')
     code = u.code
     if n_etas == 0:
-        # documented: update_source gives a model without ETAs a DUMMYETA (code record + $OMEGA)
-        frame_condition(text, code, {'PRED', 'PK', 'OMEGA'}, 'noop:no-etas')
+        # documented: update_source gives a model without ETAs a DUMMYETA (first code record + $OMEGA)
+        compare(code, '', ignore=('PRED', 'PK', 'OMEGA'))
         return u, 'no_etas'
     if code != text:
-        what, cb, ca = changed_kinds(text, code)
-        raise Violation(
-            f'noop:{what}',
-            observed=''.join(t for _, t in ca),
-            expected=''.join(t for _, t in cb),
-            detail=f'update_source() of the unmodified model: {what}\n--- input\n{text}\n--- output\n{code}',
-        )
+        compare(code, '')
+        raise Violation('noop:text-between-records', observed=code, expected=text)
     u2 = do_update(u, 'noop:update_source-twice')
     if u2.code != text:
-        what, _, _ = changed_kinds(text, u2.code)
-        raise Violation(f'noop:second-update:{what}', observed=u2.code, expected=text)
+        compare(u2.code, 'second-update')
+        raise Violation('noop:second-update:text-between-records', observed=u2.code, expected=text)
     return u, 'etas'
-
-
-HINTS = {'THETA': 'theta_inf', 'OMEGA': 'scaled_blocks', 'SIGMA': 'scaled_blocks', 'ABBREVIATED': 'abbr_replace', 'TABLE': 'table_unsorted', 'COVARIANCE': 'cov', 'SIZES': 'sizes', 'PROBLEM': 'title_comment'}
-
-
-def _with_attribution(spec, inner):
-    """A violation is attributed to a switchable shape of the generated text by ablation (as in C01): if the
-    same case passes with an extra/shape switched off or a noise op removed, the clause gets `cause=<what>:` in
-    front (known findings are keyed on that).  A case that is rejected after the change explains nothing."""
-    try:
-        return inner(spec)
-    except Violation as v:
-        if 'noop' not in v.clause:
-            raise  # defects of one kind of edit carry the edit in their clause: nothing to attribute
-        x = spec.get('x') or {}
-        ops = [op for op in (spec.get('ops') or [])[:8] if isinstance(op, list)]
-        on = [f for f in XFLAGS if x.get(f)]
-        hinted = [f for k, f in HINTS.items() if k in v.clause and f in on]
-        on = hinted + [f for f in on if f not in hinted]
-        if not on and not ops:
-            raise
-
-        def fails(off, drop_ops):
-            s2 = dict(spec, x=dict(x, **{f: False for f in off}), ops=[op for i, op in enumerate(ops) if i not in drop_ops])
-            try:
-                inner(s2)
-            except Violation as v2:
-                return 'noop' in v2.clause
-            except Reject:
-                return True
-            return False
-
-        def opname(i):
-            k = ops[i][0] if ops[i] and isinstance(ops[i][0], int) else 0
-            return 'op:' + N.SAFE[k % len(N.SAFE)]
-
-        cause = None
-        for f in hinted:
-            if not fails([f], ()):
-                cause = [f]
-                break
-        if cause is None:
-            # (removing an op moves later ops less than removing a record does: ops first)
-            for i in range(len(ops)):
-                if not fails([], (i,)):
-                    cause = [opname(i)]
-                    break
-        if cause is None:
-            for f in on:
-                if f not in hinted and not fails([f], ()):
-                    cause = [f]
-                    break
-        if cause is None:
-            allops = tuple(range(len(ops)))
-            if fails(on, allops):
-                raise  # not explained by any switchable shape
-            off, drop = list(on), list(allops)
-            for f in list(off):
-                trial = [y for y in off if y != f]
-                if not fails(trial, drop):
-                    off = trial
-            for i in list(drop):
-                trial = [y for y in drop if y != i]
-                if not fails(off, trial):
-                    drop = trial
-            cause = off + [opname(i) for i in drop]
-        raise Violation(f'cause={cause[0]}:{v.clause}', observed=v.observed, expected=v.expected, detail=f'[causes: {"+".join(cause)}] ' + (v.detail or ''))
-
-
 
 
 def _run_noop(spec):
@@ -591,7 +547,7 @@ def _run_noop(spec):
 
 
 def run_noop(spec):
-    return _with_attribution(spec, _run_noop)
+    return _run_noop(spec)
 
 
 NOOP_CORPUS_SPEC = st.fixed_dictionaries(dict(file=st.integers(0, 999), ops=st.lists(N.OP, min_size=1, max_size=4)))
@@ -607,7 +563,7 @@ def _run_noop_corpus(spec):
 
 
 def run_noop_corpus(spec):
-    return _with_attribution(spec, _run_noop_corpus)
+    return _run_noop_corpus(spec)
 
 
 # ------------------------------------------------------------------------------------------
@@ -824,8 +780,9 @@ def check_code_records(before, after, label):
             ub, ua = S.code_units(cb), S.code_units(ca)
             n_checked += 1
             for typ in ('comment', 'verbatim'):
-                sb = [u.text.rstrip('\r\n') for u in ub if u.type == typ]
-                sa = [u.text.rstrip('\r\n') for u in ua if u.type == typ]
+                # the comment token / the verbatim line itself; blanks around it are not part of it
+                sb = [(u.comments[0] if typ == 'comment' else u.text).strip(' \t\x00\r\n') for u in ub if u.type == typ]
+                sa = [(u.comments[0] if typ == 'comment' else u.text).strip(' \t\x00\r\n') for u in ua if u.type == typ]
                 if not _is_subsequence(sb, sa):
                     lost = [x for x in sb if x not in sa] or sb
                     raise Violation(f'{label}:code:{typ}-line-lost-or-reordered', observed=sa, expected=sb, detail=f'${kind}: {lost[:3]}\n--- before\n{cb}\n--- after\n{ca}')
@@ -1035,11 +992,20 @@ def check_frame(text, model, edit, corpus=False):
         except Exception:  # noqa: judged by the noop sub-check
             noop = text
         if noop != text:
-            what, cb, ca = changed_kinds(text, noop)
+            sig, cb, ca = changed_kinds(text, noop, ignore=('PRED', 'PK', 'OMEGA') if n_etas == 0 else ())
             kinds = {k for k, _ in cb + ca}
-            vkind = v.clause.rsplit(':', 1)[-1]
-            if what.startswith('records-reordered') or vkind in kinds or (':param:' in v.clause and (kinds & {'THETA', 'OMEGA', 'SIGMA'})) or (':code:' in v.clause and (kinds & CODE)):
-                raise Violation(f'frame:noop-defect:{what}', observed=v.observed, expected=v.expected, detail='[already rewritten by a no-op update_source] ' + (v.detail or ''))
+            parts = v.clause.split(':')
+            vkind = parts[2] if len(parts) > 3 and parts[3].startswith('unrelated-record') else None
+            if (
+                sig.startswith('records-reordered')
+                or vkind in kinds
+                or (':param:' in v.clause and (kinds & {'THETA', 'OMEGA', 'SIGMA'}))
+                or (':code:' in v.clause and (kinds & CODE))
+            ):
+                if vkind in kinds and not sig.startswith('records-reordered'):
+                    nb, na = sum(1 for x in cb if x[0] == vkind), sum(1 for x in ca if x[0] == vkind)
+                    sig = f'{vkind}:' + ('changed' if nb == na else ('record-deleted' if nb > na else 'record-added'))
+                raise Violation(f'frame:noop-defect:{sig}', observed=v.observed, expected=v.expected, detail='[already rewritten by a no-op update_source] ' + (v.detail or ''))
         raise
     changed = after != text
     if not changed:
@@ -1058,7 +1024,7 @@ def _run_frame(spec):
 
 
 def run_frame(spec):
-    return _with_attribution(spec, _run_frame)
+    return _run_frame(spec)
 
 
 FRAME_CORPUS_SPEC = st.fixed_dictionaries(dict(file=st.integers(0, 999), ops=st.lists(N.OP, min_size=0, max_size=3), edit=EDIT))
@@ -1077,7 +1043,7 @@ def _run_frame_corpus(spec):
 
 
 def run_frame_corpus(spec):
-    return _with_attribution(spec, _run_frame_corpus)
+    return _run_frame_corpus(spec)
 
 
 # ------------------------------------------------------------------------------------------
@@ -1089,7 +1055,33 @@ def _pred_des_model(spec):
     return any(r.kind == 'DES' for r in S.split_exact(text))
 
 
-KNOWN_PREDICATES = {'des_model': _pred_des_model}
+def _pred_glued(spec):
+    """after the edit of the spec a record is glued to the end of an $OMEGA/$SIGMA line, or pushed to the right by
+    blanks that belonged to the removed value (OmegaRecord.remove drops the newline that ended the record)"""
+    if 'file' in spec:
+        name, text = corpus_text(spec.get('file', 0))
+        text = N.apply_ops(text, spec.get('ops') or [], N.SAFE)
+    else:
+        text, b, used = build_stream(spec, N.SAFE)
+    model = read_model(text)
+    after = apply_edit(model, spec.get('edit') or [0, 0, 0])[0].code
+    before_starts = {ln for ln in S.split_lines(text) if S.record_start(ln) is not None}
+    for ln in S.split_lines(after):
+        code, _ = S.comment_split(ln)
+        if re.match(r'[ \t]*\$(OME|SIG)', code, re.I) and re.search(r'\S[ \t]*\$[A-Za-z]', code[code.index('$') + 1 :]):
+            return True
+        if S.record_start(ln) is not None and ln[:1] in ' \t' and ln not in before_starts and ln.lstrip(' \t') in {x.lstrip(' \t') for x in before_starts}:
+            return True
+    return False
+
+
+def _pred_dvid_model(spec):
+    """the checked-in model of the spec selects Y by DVID in its $ERROR record"""
+    name, text = corpus_text(spec.get('file', 0))
+    return any(r.kind == 'ERROR' and re.search(r'(?i)DVID\s*\.EQ\.', r.text) for r in S.split_exact(text))
+
+
+KNOWN_PREDICATES = {'dvid_model': _pred_dvid_model, 'des_model': _pred_des_model, 'record_glued_after_omega_remove': _pred_glued}
 
 
 def selfcheck():
